@@ -417,6 +417,9 @@ def type_table(ck, pr, mt):
             dv = const_int(fld.get("init")) if isinstance(fld.get("init"), dict) else None
             if dv is not None:
                 env["__fields__"][CF + "::Rule::" + fld["name"]] = dv
+            elif (fld.get("type") or "").startswith("std::optional<") and not isinstance(fld.get("init"), dict):
+                from engine.conc import Opt
+                env["__fields__"][CF + "::Rule::" + fld["name"]] = Opt(None)      # a default-constructed optional is empty
         try:
             try:
                 cp.exec(loops[0].get("body"), env)
